@@ -386,6 +386,8 @@ def grad_case():
                               'param_or_stat']),
       'has_aux': st.booleans(), 'vag': st.booleans(),
       'two_args': st.booleans(),
+      # argnums listed in descending order: results follow the given order
+      'descending': st.booleans(),
       'seed': st.integers(0, 2**16),
       # calls made on ONE transformed function object before the call that
       # is checked last: valid calls, calls that are rejected (integer
@@ -432,6 +434,9 @@ def grad_vs_jax(case, ctx):
   else:
     argnums = (nnx.DiffState(0, flt), nnx.DiffState(1, flt)) if two else \
         nnx.DiffState(0, flt)
+  desc = bool(two and case.get('descending'))
+  if desc:
+    argnums = tuple(argnums[::-1])
   tr = nnx.value_and_grad if case['vag'] else nnx.grad
   # reference: functional form
   def ref():
@@ -493,7 +498,10 @@ def grad_vs_jax(case, ctx):
   else:
     grads = out[0] if case['has_aux'] else out
   g = grads if two else (grads,)
-  for gi, (got, ref_g, mod) in enumerate(zip(g, (g1_ref, g2_ref), (m1, m2))):
+  refs, mods = (g1_ref, g2_ref), (m1, m2)
+  if desc:
+    refs, mods = refs[::-1], mods[::-1]
+  for gi, (got, ref_g, mod) in enumerate(zip(g, refs, mods)):
     flat = dict(statelib.to_flat_state(got))
     exp_paths = {p for p, v in statelib.to_flat_state(nnx.state(mod))
                  if filterlib.to_predicate(flt)(p, v)}
@@ -526,7 +534,8 @@ def grad_vs_jax(case, ctx):
               f'{np.asarray(getattr(m1, k).value)} although the loss does '
               f'not write it (history {hist})')
   ctx.note(labels=[case['wrt'], 'vag' if case['vag'] else 'grad',
-                   'two' if two else 'one'] + sorted(set(hist)),
+                   'two' if two else 'one'] + (['descending'] if desc else [])
+           + sorted(set(hist)),
            nontrivial=case['wrt'] != 'default' or two)
 
 
